@@ -98,9 +98,19 @@ def exits_to_else(fn):
 NEG_OPS = (ast.IsNot, ast.NotEq, ast.NotIn)
 
 
+def _neg_atoms(t):
+    if isinstance(t, ast.BoolOp):
+        return sum(_neg_atoms(v) for v in t.values)
+    return 1 if _is_negative(t) else 0
+
+
 def _is_negative(t):
     if isinstance(t, ast.UnaryOp) and isinstance(t.op, ast.Not):
         return True
+    if isinstance(t, ast.BoolOp):
+        # De Morgan pairs (`not a or b == 0` / `a and b != 0`): the form with fewer negative atoms, the disjunction on a tie
+        n1, n2 = _neg_atoms(t), _neg_atoms(C._neg(t))
+        return n1 > n2 or (n1 == n2 and isinstance(t.op, ast.And))
     if isinstance(t, ast.Compare) and len(t.ops) == 1 and isinstance(t.ops[0], (ast.GtE, ast.LtE)):
         return all(C._is_int_expr(x) for x in (t.left, t.comparators[0]))     # `a >= b` is `not a < b` only without NaN
     return isinstance(t, ast.Compare) and len(t.ops) == 1 and isinstance(t.ops[0], NEG_OPS)
@@ -528,6 +538,30 @@ def for_over_listcomp(fn):
     M().visit(fn)
 
 
+# --------------------------------------------------------------------------------------------- conditional re-binding
+
+def cond_rebind(fn):
+    """`if c: x = E` (no else) with x bound before in the same block (or a parameter)  ->  `x = E if c else x`.
+    E is evaluated exactly when c holds in both forms; x is bound, so reading it in the else arm cannot fail."""
+    params = {a.arg for a in fn.args.args + fn.args.kwonlyargs} | ({fn.args.vararg.arg} if fn.args.vararg else set())
+    for _o, _f, body in list(C._blocks(fn)):
+        bound = set(params) if body is fn.body else set()
+        for k, st in enumerate(body):
+            if isinstance(st, ast.If) and not st.orelse and len(st.body) == 1 and isinstance(st.body[0], ast.Assign) and len(st.body[0].targets) == 1 \
+                    and isinstance(st.body[0].targets[0], ast.Name) and st.body[0].targets[0].id in bound:
+                x = st.body[0].targets[0].id
+                new = ast.Assign(targets=[ast.Name(id=x, ctx=ast.Store())],
+                                 value=ast.IfExp(test=st.test, body=st.body[0].value, orelse=ast.Name(id=x, ctx=ast.Load())))
+                ast.copy_location(new, st)
+                ast.fix_missing_locations(new)
+                body[k] = new
+                st = new
+            if isinstance(st, ast.Assign):
+                for t in st.targets:
+                    if isinstance(t, ast.Name):
+                        bound.add(t.id)
+
+
 # --------------------------------------------------------------------------------------------- driver hook
 
 def extra_passes(fn, module_tree):
@@ -539,4 +573,5 @@ def extra_passes(fn, module_tree):
     adjacent_single_use(fn)
     sink_into_arms(fn)
     for_over_listcomp(fn)
+    cond_rebind(fn)
     orient(fn)
